@@ -143,6 +143,18 @@ pub unsafe extern "C" fn syscall(num: c_long, a1: usize, a2: usize, a3: usize, a
     raw6(num, a1, a2, a3, a4, a5, a6)
 }
 
+/// Interposed `sched_yield` (`std::thread::yield_now`).
+///
+/// # Safety
+/// None needed.
+#[no_mangle]
+pub unsafe extern "C" fn sched_yield() -> c_int {
+    if bbguard::is_worker() && !bbguard::is_internal() && crate::sim::spin_yield_emulated() {
+        return 0;
+    }
+    raw6(libc::SYS_sched_yield, 0, 0, 0, 0, 0, 0) as c_int
+}
+
 /// Interposed `nanosleep`.
 ///
 /// # Safety
